@@ -1,8 +1,10 @@
 /-
   QKV.Model.Po2Quant — executable model of the power-of-two quantizers of qkeras/quantizers.py
   (`quantized_po2`, `quantized_relu_po2`, `_clip_power_of_two`, `_need_exponent_sign_bit_check`,
-  `_get_min_max_exponents`, `min()`, `max()`), `use_stochastic_rounding=False`, `qnoise_factor=1`.
-  Core Lean only.
+  `_get_min_max_exponents`, `min()`, `max()`), `qnoise_factor=1`.  `Cfg` and the layers below are
+  the non-stochastic call of a fresh object built from python numbers; the last section adds the
+  constructor call as written (argument spellings), `use_stochastic_rounding` x learning phase, and
+  one object over a history of re-configurations.  Core Lean only.
 
   Two layers.
   * exact layer (`quantWith`, `quant`, `Admissible`): what the code computes when every float
@@ -228,5 +230,180 @@ structure Cfg.WF (c : Cfg) : Prop where
   mvPos : ∀ m, c.maxValue = some m → 0 < m
   slope : 0 ≤ c.negSlope
   slopeRelu : c.relu = false → c.negSlope = 0
+
+/-! ### the constructor call as written, options outside `Cfg`, process state, object histories
+
+  (strengthening round, seed C03-5 and the cross-cutting blind spots)
+
+  * `Ctor`: the constructor call with the SPELLING of every numeric argument (`NumForm`: python
+    int / float, numpy scalar types, 0-d ndarray, tf constant / variable).  The anchored code
+    looks at values only (`Ctor.cfg`); the spelling matters in exactly one place of the unchanged
+    code, python's `2**self._min_exp` / `2**self._max_exp` in `min()/max()` when `bits` is a numpy
+    integer (`qminForm`, `qmaxForm`: recorded finding `C03-numpy-int-bits`).
+  * `use_stochastic_rounding` and `K.learning_phase()` (`RawAdmS`): the "floor" branch is tested
+    first, then the stochastic branch, which rounds to nearest in the inference phase.
+  * `Obj`: a quantizer object = the exponent range cached by `__init__` plus the attributes that
+    `__call__` reads live; `Step` = re-configuration through a public attribute between calls.
+    `Obj.view` is the configuration the code computes with, `Obj.fresh` the one a new object built
+    from the current attributes would have.
+-/
+
+/-- how a numeric constructor argument is spelled -/
+inductive NumForm where
+  | pyInt | pyFloat | npFloat16 | npFloat32 | npFloat64 | npInt32 | npInt64
+  | ndarrayInt | ndarrayFloat | tfConstant | tfVariable
+deriving Repr, DecidableEq
+
+/-- bit width of the numpy integer type the cached exponents `_min_exp/_max_exp` end up in when
+    `bits` has this spelling (`none`: python int / float or numpy float: unbounded resp. float) -/
+def NumForm.npIntWidth : NumForm → Option Nat
+  | .npInt32 => some 32
+  | .npInt64 => some 64
+  | .ndarrayInt => some 64
+  | _ => none
+
+structure Num where
+  form : NumForm
+  val : Rat
+deriving Repr
+
+/-- the constructor call `quantized_po2(bits, max_value, use_stochastic_rounding,
+    quadratic_approximation, log2_rounding)` / `quantized_relu_po2(bits, max_value,
+    negative_slope, ...)` as written -/
+structure Ctor where
+  relu : Bool
+  bits : Nat
+  bitsForm : NumForm
+  maxValue : Option Num
+  negSlope : Num
+  stochastic : Bool
+  quad : Bool
+  floorMode : Bool
+deriving Repr
+
+/-- the configuration `__init__` stores: VALUES only (`_need_exponent_sign_bit_check` compares
+    `max_value` with 0 and 1 whatever its type) -/
+def Ctor.cfg (k : Ctor) (eps : Rat) : Cfg :=
+  { relu := k.relu, bits := k.bits, maxValue := k.maxValue.map (·.val),
+    negSlope := k.negSlope.val, floorMode := k.floorMode, quad := k.quad, eps := eps }
+
+/-- two constructor calls with the same values (spellings may differ) -/
+def Ctor.SameValues (k k' : Ctor) : Prop :=
+  k.relu = k'.relu ∧ k.bits = k'.bits ∧ k.maxValue.map (·.val) = k'.maxValue.map (·.val) ∧
+  k.negSlope.val = k'.negSlope.val ∧ k.stochastic = k'.stochastic ∧ k.quad = k'.quad ∧
+  k.floorMode = k'.floorMode
+
+/-- `max()` as python evaluates it: `2**self._max_exp` with a numpy integer `_max_exp` of width `w`
+    wraps around (`2**(w-1)` is negative, larger powers are 0), so `max(1.0, ·)` is `1.0` -/
+def qmaxForm (bf : NumForm) (c : Cfg) : Rat :=
+  match truthy c.maxValue with
+  | some m => rmax 1 m
+  | none =>
+    match bf.npIntWidth with
+    | some w => if (w : Int) - 1 ≤ c.maxExp then 1 else rmax 1 (pow2 c.maxExp)
+    | none => rmax 1 (pow2 c.maxExp)
+
+/-- `min()` as python evaluates it; `none` = `ValueError: Integers to negative integer powers are
+    not allowed` (`2**self._min_exp` with a numpy integer `_min_exp`) -/
+def qminForm (bf : NumForm) (c : Cfg) : Option Rat :=
+  if c.relu then
+    (if c.negSlope = 0 then (if bf.npIntWidth.isSome then none else some (pow2 c.minExp))
+     else some (- qmaxForm bf c))
+  else some (- qmaxForm bf c)
+
+/-- exact `floor(log2 x_input)` (`x_input = sqrt v` under quadratic approximation) -/
+def floorExp (c : Cfg) (v : Rat) : Int := if c.quad then floorLog2Rat v / 2 else floorLog2Rat v
+
+/-- `stochastic_round_po2` (training phase): the exponent below `x_input` or the one above -/
+def StochAdm (c : Cfg) (v : Rat) (r : Int) : Prop := r = floorExp c v ∨ r = floorExp c v + 1
+
+instance (c : Cfg) (v : Rat) (r : Int) : Decidable (StochAdm c v r) := by
+  unfold StochAdm; exact inferInstance
+
+/-- the rounded logarithms the code can end up with, given `use_stochastic_rounding` and the
+    learning phase: `if log2_rounding == "floor": … elif use_stochastic_rounding:
+    smart_cond(K.learning_phase(), stochastic_round_po2, _round_through) else: _round_through` -/
+def RawAdmS (c : Cfg) (stochastic training : Bool) (v : Rat) (r : Int) : Prop :=
+  if c.floorMode then RawAdm c v r
+  else if stochastic && training then StochAdm c v r
+  else RawAdm c v r
+
+def AdmissibleS (c : Cfg) (stochastic training : Bool) (x y : Rat) : Prop :=
+  ∃ r, RawAdmS c stochastic training (logArg c x) r ∧ y = quantWith c x r
+
+/-- for the driver -/
+def admExpsS (c : Cfg) (stochastic training : Bool) (v : Rat) : List Int :=
+  if !c.floorMode && stochastic && training then [floorExp c v, floorExp c v + 1] else admExps c v
+
+/-- a quantizer object: what `__init__` cached and what `__call__` reads live -/
+structure Obj where
+  relu : Bool
+  effBitsC : Nat          -- cached: `_min_exp = -2**effBitsC`, `_max_exp = 2**effBitsC - 1`
+  bitsForm : NumForm      -- type of the cached exponents
+  bits : Nat              -- `self.bits` (live attribute; `__call__` does not read it)
+  maxValue : Option Rat   -- `self.max_value` (live: clamp, `min()/max()`)
+  negSlope : Rat          -- `self.negative_slope` (live)
+  stochastic : Bool       -- `self.use_stochastic_rounding` (live)
+  floorMode : Bool        -- `self.log2_rounding` (live)
+  quad : Bool             -- `self.quadratic_approximation` (not re-configured here)
+deriving Repr
+
+def Obj.init (k : Ctor) : Obj :=
+  let c := k.cfg 0
+  { relu := k.relu, effBitsC := c.effBits, bitsForm := k.bitsForm, bits := c.bits,
+    maxValue := c.maxValue, negSlope := c.negSlope, stochastic := k.stochastic,
+    floorMode := k.floorMode, quad := k.quad }
+
+/-- re-configuration through a public attribute -/
+inductive Step where
+  | setMaxValue (mv : Option Rat)
+  | setNegSlope (s : Rat)
+  | setFloor (b : Bool)
+  | setStochastic (b : Bool)
+  | setBits (n : Nat)
+deriving Repr
+
+def Obj.step (o : Obj) : Step → Obj
+  | .setMaxValue mv => { o with maxValue := mv }
+  | .setNegSlope s => { o with negSlope := s }
+  | .setFloor b => { o with floorMode := b }
+  | .setStochastic b => { o with stochastic := b }
+  | .setBits n => { o with bits := n }
+
+def Obj.run (o : Obj) (steps : List Step) : Obj := steps.foldl Obj.step o
+
+/-- the configuration a NEW object built from the current attributes would have (the property's
+    reference: "the exponent interval determined by the bit width and max_value") -/
+def Obj.fresh (o : Obj) (eps : Rat) : Cfg :=
+  { relu := o.relu, bits := o.bits, maxValue := o.maxValue, negSlope := o.negSlope,
+    floorMode := o.floorMode, quad := o.quad, eps := eps }
+
+/-- the configuration the code computes with: live attributes, CACHED exponent range (expressed as
+    the bit width that yields the cached range together with the live `max_value`) -/
+def Obj.view (o : Obj) (eps : Rat) : Cfg :=
+  { relu := o.relu, bits := o.effBitsC + needSign o.maxValue + (if o.relu then 0 else 1),
+    maxValue := o.maxValue, negSlope := o.negSlope, floorMode := o.floorMode, quad := o.quad,
+    eps := eps }
+
+/-- the cache is coherent with the live attributes -/
+def Obj.Coherent (o : Obj) : Prop := o.effBitsC = (o.fresh 0).effBits
+
+instance (o : Obj) : Decidable o.Coherent := by unfold Obj.Coherent; exact inferInstance
+
+/-- the object's bit width leaves room for the sign bits it needs (`bits ≥ 2`, relu `bits ≥ 1`) -/
+def Obj.BitsOK (o : Obj) : Prop := needSign o.maxValue + (if o.relu then 0 else 1) ≤ o.bits
+
+/-- a step that leaves the cached exponent range valid: any change of `negative_slope`,
+    `log2_rounding`, `use_stochastic_rounding`; a new `max_value` on the same side of 1 (same
+    exponent sign bit); `bits` unchanged -/
+def Step.Safe (o : Obj) : Step → Prop
+  | .setMaxValue mv => needSign mv = needSign o.maxValue
+  | .setBits n => n = o.bits
+  | _ => True
+
+/-- every step of the history is safe at the state it is applied to -/
+def SafeRun : Obj → List Step → Prop
+  | _, [] => True
+  | o, s :: rest => s.Safe o ∧ SafeRun (o.step s) rest
 
 end QKV.Po2Q
